@@ -456,6 +456,24 @@ def check_vec_trace(ctx, case, out, label):
   if numpy.any(fvv[~numpy.isnan(fvv)] > float(bv)):
     viol("a reported per-start value exceeds best_value", {"best_value": float(bv), "function_values": fvv.tolist()})
     return improvements
+  # every SUPPLIED start (however many) is a starting point of the run, and its restricted image was evaluated
+  if case.get("starts") is not None and kind in ("de", "adam") and not case["af"].get("q", 1) > 1:
+    supplied = numpy.array(case["starts"], dtype=float).reshape(len(case["starts"]), -1)
+    if len(starts_raw) < len(supplied) or not numpy.array_equal(starts_raw[: len(supplied)], supplied):
+      viol("the supplied starting points are not (all) among the run's starting points",
+           {"supplied": len(supplied), "starting_points": len(starts_raw)})
+      return improvements
+    if not case.get("constraints"):
+      lo, hi = numpy.array(case["bounds"], dtype=float).T
+      img = numpy.clip(supplied, lo, hi)
+      for i, v in (case.get("fixed") or {}).items():
+        img[:, int(i)] = float(v)
+      svals = numpy.asarray(out["inner"].evaluate_at_point_list(img), dtype=float)
+      # re-evaluated in another batch composition: allow batch-dependent rounding of the acquisition function
+      if numpy.any(svals[~numpy.isnan(svals)] > float(bv) + 1e-9 * abs(float(bv)) + 1e-12):
+        viol("best_value lower than the value at a supplied, domain-restricted starting point",
+             {"best_value": float(bv), "start_values": svals.tolist()})
+        return improvements
   # DE: never replace by worse (end of run vs restricted start, position by position)
   if kind == "de" and len(first["pts"]) == len(ending):
     v0, v1 = first["vals"], fvv
